@@ -25,12 +25,12 @@ def _pt(rng):
     return rng.uniform(-1e-3, 1e-3)
 
 
-def _sorted_distinct(rng, n):
+def _sorted_distinct(rng, n, adjacent=False, p_adj=0.05):
     while True:
         v = sorted(_pt(rng) for _ in range(n))
         if all(a < b for a, b in zip(v, v[1:])):
             break
-    if n >= 2 and rng.random() < 0.05:
+    if adjacent and n >= 2 and rng.random() < p_adj:
         # two consecutive parameters only 1-3 ulps apart: valid, and the place where rounded midpoints and differences
         # coincide with the parameters themselves (SShape returned 2*height at x = end there before the fix 5d81399)
         i = rng.randrange(n - 1)
@@ -42,22 +42,22 @@ def _sorted_distinct(rng, n):
     return v
 
 
-def gen_params(name: str, rng, vertical: bool = False) -> dict:
+def gen_params(name: str, rng, vertical: bool = False, adjacent: bool = False) -> dict:
     """A valid parameterisation of the term (both directions, degenerate vertical edges, infinite shoulders)."""
     h = heights(rng)
     if name in ("Arc", "Ramp", "Concave"):
-        a, b = _sorted_distinct(rng, 2)
+        a, b = _sorted_distinct(rng, 2, adjacent)
         if rng.random() < 0.5:
             a, b = b, a
         k = "inflection" if name == "Concave" else "start"
         return {k: a, "end": b, "height": h}
     if name in ("SShape", "ZShape"):
-        a, b = _sorted_distinct(rng, 2)
+        a, b = _sorted_distinct(rng, 2, adjacent, 0.3)  # rounded midpoints coincide with the end points there
         if vertical and rng.random() < 0.12:
             b = a  # degenerate vertical edge: a step at start
         return {"start": a, "end": b, "height": h}
     if name in ("Rectangle", "SemiEllipse"):
-        a, b = _sorted_distinct(rng, 2)
+        a, b = _sorted_distinct(rng, 2, adjacent)
         if rng.random() < 0.3:
             a, b = b, a
         return {"start": a, "end": b, "height": h}
@@ -81,26 +81,26 @@ def gen_params(name: str, rng, vertical: bool = False) -> dict:
     if name == "Sigmoid":
         return {"inflection": _pt(rng), "slope": rng.choice([1, -1]) * rng.uniform(0.1, 20), "height": h}
     if name in ("SigmoidDifference", "SigmoidProduct"):
-        a, b = _sorted_distinct(rng, 2)
+        a, b = _sorted_distinct(rng, 2, adjacent)
         rising = rng.uniform(0.2, 10)
         falling = rng.uniform(0.2, 10) * (1 if name == "SigmoidDifference" else -1)
         return {"left": a, "rising": rising, "falling": falling, "right": b, "height": h}
     if name == "Triangle":
         k = rng.random()
         if k < 0.6:
-            a, b, c = _sorted_distinct(rng, 3)
+            a, b, c = _sorted_distinct(rng, 3, adjacent)
         elif k < 0.7:
-            a, c = _sorted_distinct(rng, 2); b = a  # vertical left edge
+            a, c = _sorted_distinct(rng, 2, adjacent); b = a  # vertical left edge
         elif k < 0.8:
-            a, c = _sorted_distinct(rng, 2); b = c  # vertical right edge
+            a, c = _sorted_distinct(rng, 2, adjacent); b = c  # vertical right edge
         elif k < 0.9:
-            b, c = _sorted_distinct(rng, 2); a = -inf
+            b, c = _sorted_distinct(rng, 2, adjacent); a = -inf
         else:
-            a, b = _sorted_distinct(rng, 2); c = inf
+            a, b = _sorted_distinct(rng, 2, adjacent); c = inf
         return {"left": a, "top": b, "right": c, "height": h}
     if name == "Trapezoid":
         k = rng.random()
-        a, b, c, d = _sorted_distinct(rng, 4)
+        a, b, c, d = _sorted_distinct(rng, 4, adjacent)
         if k < 0.5:
             pass
         elif k < 0.6:
@@ -115,7 +115,7 @@ def gen_params(name: str, rng, vertical: bool = False) -> dict:
             d = inf
         return {"bottom_left": a, "top_left": b, "top_right": c, "bottom_right": d, "height": h}
     if name == "PiShape":
-        a, b, c, d = _sorted_distinct(rng, 4)
+        a, b, c, d = _sorted_distinct(rng, 4, adjacent, 0.3)
         k = rng.random()
         if k < 0.2:
             c = b
